@@ -1,7 +1,7 @@
 """C05 -- the point-to-triangle kernel returns the true closest point.
 spec/ClosestPoint transcribes the seven branches of the kernel over the integer lattice; TLC checks the contract
 (barycentrics, optimality, distance, invariance under the 24 lattice rotations and under translations) for every
-case in the box, and its state dump is the table of expected answers replayed into the real function at several
+case in the box (which must contain, for every guard conjunct of the kernel that can matter, a case where it does), and its state dump is the table of expected answers replayed into the real function at several
 scales and positions in space."""
 import json, os, random
 from fractions import Fraction
@@ -50,6 +50,17 @@ def run(tier, seed, replay=None):
     if set(regions) != {"A", "B", "C", "AB", "AC", "BC", "IN"}:
         raise ModelError("vacuous enumeration: regions covered %r" % regions)
     chk.cov["regions"] = regions
+    # adequacy of the enumeration: for every guard conjunct of the kernel whose removal can change an answer (12 of the 15:
+    # the other three are never decisive anywhere in the thorough box), some enumerated case must be decisive for it --
+    # otherwise a kernel with that guard weakened would pass the replay unnoticed
+    kills = {}
+    for st in states:
+        for m in st["kills"]:
+            kills[m] = kills.get(m, 0) + 1
+    need = {"A.d1", "A.d2", "B.d3", "B.d4", "AB.vc", "AB.d1", "AB.d3", "C.d6", "C.d5", "AC.vb", "AC.d6", "BC.va"}
+    if not need <= set(kills):
+        raise ModelError("enumeration not adequate: no case decisive for guard conjunct(s) %r" % sorted(need - set(kills)))
+    chk.cov["decisive_cases_per_guard_conjunct"] = kills
 
     rnd = random.Random(seed)
     rots = rotations()
